@@ -230,11 +230,17 @@ class Headings(Space):
                     for ks in itertools.product(range(len(EMPH)), repeat=n):
                         for sem in (False, True):
                             yield (ci, f, ks, sem)
+                            if n == 1 or ci == 0:
+                                yield (ci, f, ks, sem, 1)   # appended later: the same heading in a document without any asterisk
 
     def text(self, case):
-        ci, f, ks, sem = case
+        ci, f, ks, sem = case[:4]
         content = " ".join(EMPH[k] for k in ks)
-        lines = self.FORMS[f].format(content).split("\n") + ["", "para **bold** text", "", "- **li**"]
+        if len(case) > 4:
+            content = content.replace("**", "__").replace("*", "_")
+            lines = self.FORMS[f].format(content).split("\n") + ["", "para __bold__ text"]
+        else:
+            lines = self.FORMS[f].format(content).split("\n") + ["", "para **bold** text", "", "- **li**"]
         layers, b, a = self.HCTX[ci]
         return docspace.in_context(lines, layers, b, a)
 
@@ -242,6 +248,11 @@ class Headings(Space):
         return {"text": self.text(case), "semantic": case[3]}
 
     def smaller(self, case):
+        if len(case) > 4:
+            yield case[:4]
+            for c in self.smaller(case[:4]):
+                yield c + (1,)
+            return
         ci, f, ks, sem = case
         if ci:
             yield (0, f, ks, sem)
@@ -257,7 +268,7 @@ class Headings(Space):
             yield (ci, f, ks, False)
 
     def evaluate(self, case):
-        ci, f, ks, sem = case
+        ci, f, ks, sem = case[:4]
         text = self.text(case)
         off = reformat_text(text, semantic=sem, cleanups=False)
         on = reformat_text(text, semantic=sem, cleanups=True)
